@@ -62,7 +62,7 @@ def run_thr(exe, seed, nthr, nops, timeout=600):
 
 def dynamic_part(run, tier, scr):
     """ties `descr_unchanged`: no operation on any type stores into the writable image of skeleton + generated objects"""
-    dyn = {"variants": {}, "modules": [], "unreached_functions_all_variants": None}
+    dyn = {"variants": {}, "modules": [], "unreached_functions_all_variants": None, "shapes": None, "values": None, "gcov": None}
     known = [(re.compile(f["written_symbol"]), f["id"]) for f in run.findings if f.get("written_symbol")]
     try:
         asn1c, skel = build_asn1c()
@@ -70,11 +70,14 @@ def dynamic_part(run, tier, scr):
         dyn["modules"] = [m["name"] for m, _, _ in mods]
         root = os.path.join(scr, "c19dyn")
         unreached = None
+        shapes, values, covs = {}, {}, {}
         for (tag, opts, xc, tiers, skip_rx) in U.VARIANTS:
             if tier not in tiers:
                 continue
-            v = U.build_variant(asn1c, skel, root, tag, opts, xc, mods, skip_rx)
+            want_cov = (tier == "thorough" and tag in U.COV_VARIANTS)
+            v = U.build_variant(asn1c, skel, root, tag, opts, xc, mods, skip_rx, cov=want_cov)
             types = U.list_types(v)
+            shapes[tag] = U.shape_sides(v)
             run.count("dyn:programs(objects in image)", v["nfiles"])
             for t in types:
                 src = "not-a-pdu" if t["notpdu"] else "random_fill" if not t["nofill"] else "der-seeds" if t["seeds"] else "no-value-source"
@@ -95,6 +98,19 @@ def dynamic_part(run, tier, scr):
                 run.violation("ro-image:selftest(%s)" % tag, {"what": "the read-only-image detector did not report the three canary stores "
                                                                         "(c19_canary.c) exactly: it cannot be trusted on this platform", "seen": ro["selftest"]}, no_input=True)
             run.count("dyn:ro:crash-recovered(not C19)", len(ro["crashes"]))
+            # every table reachable from a descriptor (specifics and the maps behind them included) lies inside the watched image
+            info["ro"]["descriptor_parts"] = ro["parts"]
+            if ro["summary"] and (ro["parts"] is None or ro["parts"].get("outside", 1) != 0):
+                run.violation("ro-image:parts(%s)" % tag,
+                              {"what": "a table reachable from a type descriptor (descriptor, tags, member table, specifics and their maps, constraint records) lies outside "
+                                       "the image the detector protects: a store into it would not be seen, the set D of descr_unchanged does not cover it",
+                               "parts": ro["parts"], "outside": ro["parts_outside"][:20]}, no_input=True)
+            for tn, (nv, ni) in ro["values"].items():
+                a = values.setdefault(tn, [0, 0])
+                a[0] += nv
+                a[1] += ni
+            if want_cov:
+                covs[tag] = U.run_cov(v, run.seed, 12)
             by_sym = {}
             for e in ro["stores"]:
                 by_sym.setdefault(e["symbol"], {"stores": [], "diffs": []})["stores"].append(e)
@@ -144,6 +160,24 @@ def dynamic_part(run, tier, scr):
             dyn["variants"][tag] = info
         dyn["unreached_functions_all_variants"] = sorted(unreached or [])
         run.count("dyn:functions-never-entered", len(unreached or []))
+        # which sides of the decisions the codecs take on table contents (lib/c19_zoo.SHAPES) have a type with values in this run
+        sr = U.shape_report(shapes)
+        dyn["shapes"] = sr
+        run.count("dyn:shape-sides-with-a-type", sr["sides_seen"])
+        run.count("dyn:shape-sides-missing", len(sr["missing"]))
+        if sr["missing"]:
+            run.notes.append("decision sides without a type in the battery: %s" % ["%s=%s" % (m["key"], m["side"]) for m in sr["missing"]])
+        # values seen per type by verdict of the type's own checker: both verdicts wanted where the type has constraints
+        dyn["values"] = {"types": len(values), "never_valid": sorted(t for t, (a, b) in values.items() if a == 0),
+                         "never_invalid": sorted(t for t, (a, b) in values.items() if b == 0),
+                         "valid_total": sum(a for a, b in values.values()), "invalid_total": sum(b for a, b in values.values())}
+        run.count("dyn:values:valid", dyn["values"]["valid_total"])
+        run.count("dyn:values:invalid", dyn["values"]["invalid_total"])
+        run.count("dyn:types-never-valid", len(dyn["values"]["never_valid"]))
+        if covs:
+            dyn["gcov"] = U.merge_cov(covs)
+            run.count("dyn:gcov:functions-never-executed", len(dyn["gcov"]["functions_never_executed"]))
+            run.count("dyn:gcov:branches-never-taken", dyn["gcov"]["branches_never_taken"])
         if len(run.cov["samples"]) < 11:
             k = sorted(dyn["variants"])[0] if dyn["variants"] else None
             if k:
